@@ -275,7 +275,7 @@ func (p *probeReader) Read(b []byte) (int, error) {
 	return p.r.Read(b)
 }
 
-// newPaths lists the paths present in now and absent from before (relative, slash separated).
+// newPaths lists the paths present in now and absent from before, and the files whose bytes differ (relative, slash separated).
 func newPaths(before, now *Node, prefix string, out *[]string) {
 	if now == nil || !now.IsDir {
 		return
@@ -285,7 +285,8 @@ func newPaths(before, now *Node, prefix string, out *[]string) {
 		if before != nil && before.IsDir {
 			b = before.Kids[k]
 		}
-		if b == nil {
+		if b == nil || (!b.IsDir && !now.Kids[k].IsDir && b.Content != now.Kids[k].Content) {
+			// new, or a file that was there and holds something else now (a temporary name that was taken)
 			*out = append(*out, prefix+k)
 			continue
 		}
@@ -297,10 +298,69 @@ func newPaths(before, now *Node, prefix string, out *[]string) {
 // the body is being read that did not exist before.
 func (s *Sandbox) ProbeTemps(r Req, before *Node) []string {
 	var temps []string
-	s.probe = func() { newPaths(before, Snapshot(s.Dir), "", &temps) }
+	s.wrap = func(b io.Reader) io.Reader {
+		return &probeReader{r: b, look: func() { newPaths(before, Snapshot(s.Dir), "", &temps) }}
+	}
 	s.Do(r, before)
-	s.probe = nil
+	s.wrap = nil
 	return temps
+}
+
+// stepReader hands the body out in the given pieces and looks at the sandbox at
+// every Read: the states the upload passes through.
+type stepReader struct {
+	chunks [][]byte
+	fails  bool
+	look   func()
+	given  []string // the pieces as actually delivered
+}
+
+func (p *stepReader) Read(b []byte) (int, error) {
+	p.look()
+	for len(p.chunks) > 0 && len(p.chunks[0]) == 0 {
+		p.chunks = p.chunks[1:]
+	}
+	if len(p.chunks) == 0 {
+		if p.fails {
+			return 0, errors.New("verif: injected body failure")
+		}
+		return 0, io.EOF
+	}
+	n := copy(b, p.chunks[0])
+	p.given = append(p.given, string(p.chunks[0][:n]))
+	p.chunks[0] = p.chunks[0][n:]
+	return n, nil
+}
+
+// Steps is what DoSteps saw of one upload.
+type Steps struct {
+	Given []string // body pieces delivered
+	Seen  []*Node  // sandbox at each Read of the body
+	Temps []string // paths present at the first Read that were not there before
+}
+
+// DoSteps serves a PUT whose body arrives in the given pieces (and then ends, or
+// fails), recording the sandbox at every read of the body.
+func (s *Sandbox) DoSteps(r Req, chunks []string, fails bool, before *Node) (Derived, Obs, *Node, Steps) {
+	var st Steps
+	sr := &stepReader{fails: fails}
+	for _, c := range chunks {
+		sr.chunks = append(sr.chunks, []byte(c))
+	}
+	sr.look = func() {
+		now := Snapshot(s.Dir)
+		if len(st.Seen) == 0 {
+			newPaths(before, now, "", &st.Temps)
+		}
+		st.Seen = append(st.Seen, now)
+	}
+	s.wrap = func(io.Reader) io.Reader { return sr }
+	r.Body = strings.Join(chunks, "")
+	d, o, after := s.Do(r, before)
+	s.wrap = nil
+	d.BodyFails = fails
+	st.Given = sr.given
+	return d, o, after, st
 }
 
 // Derived holds the request fields the model receives that come from unmodelled
@@ -435,7 +495,7 @@ type Sandbox struct {
 	RootRel []string
 	Handler *webdav.Handler
 	FS      webdav.LocalFileSystem
-	probe   func()
+	wrap    func(io.Reader) io.Reader
 }
 
 func NewSandbox(dir string, rootRel []string) *Sandbox {
@@ -512,8 +572,8 @@ func (s *Sandbox) Do(r Req, before *Node) (Derived, Obs, *Node) {
 	if body == nil {
 		body = http.NoBody
 	}
-	if s.probe != nil {
-		body = &probeReader{r: body, look: s.probe}
+	if s.wrap != nil {
+		body = s.wrap(body)
 	}
 	ctx, cancel := context.WithCancel(context.Background())
 	defer cancel()
